@@ -280,6 +280,11 @@ package model
 //@   loop 1 invariant head: data[0] == p.FileNameLen && data[1+len(p.FileName)] == p.FileType && data[2+len(p.FileName)] == p.UploadResult && data[3+len(p.FileName)] == p.RetransmitPacketNumber
 //@   loop 1 invariant name: forall(k, 0, len(p.FileName), data[1+k] == p.FileName[k])
 //@   loop 1 invariant pairs: forall(k, 0, rangeindex+1, be32(data, 4+len(p.FileName)+8*k) == p.P0x9212RetransmitPacketList[k].DataOffset && be32(data, 8+len(p.FileName)+8*k) == p.P0x9212RetransmitPacketList[k].DataLength)
+//@   precall AppendUint32#2 mid.len: len(arg1) == 8 + len(p.FileName) + 8*(rangeindex+1)
+//@   precall AppendUint32#2 mid.off: be32(arg1, len(arg1) - 4) == p.P0x9212RetransmitPacketList[rangeindex+1].DataOffset
+//@   precall AppendUint32#2 mid.pairs: forall(k, 0, rangeindex+1, be32(arg1, 4+len(p.FileName)+8*k) == p.P0x9212RetransmitPacketList[k].DataOffset && be32(arg1, 8+len(p.FileName)+8*k) == p.P0x9212RetransmitPacketList[k].DataLength)
+//@   focus pairs: len idx fresh mid
+//@   focus mid: len idx fresh pairs
 
 //@ func (*P0x9212).Parse
 //@   loop 1 decreases int(p.RetransmitPacketNumber) - i
